@@ -1148,6 +1148,13 @@ def _run_cords(sh, params, bulk, nb, n2p):
         f = io.StringIO()
         try:
             bulk.wtcoordcards(f, ci)
+            if i % 4 == 1 and nsys >= 1:
+                # the same coordinate cards written again into the same file (two tables
+                # sharing their systems, each writer call adds what it needs): EQUAL
+                # duplicates are documented to be quietly ignored on reading
+                for _ in range(1 + (i // 4) % 2):
+                    bulk.wtcoordcards(f, ci)
+                sh.count("cell:cord:cards-written-%d-times" % (2 + (i // 4) % 2))
             gform = "{:16.9E}" if r.random() < 0.5 else "{:16.8f}"
             if gform == "{:16.8f}" and np.abs(xyz).max() >= 9e5:
                 gform = "{:16.9E}"
